@@ -454,7 +454,7 @@ pub fn run(ctx: &Ctx) -> Report {
             if let Some(st) = child.try_wait().unwrap() { break Some(st); }
             std::thread::sleep(std::time::Duration::from_millis(50));
             let len = std::fs::metadata(&out_path).map(|m| m.len()).unwrap_or(0);
-            if len != last_len { last_len = len; last_progress = std::time::Instant::now(); }
+            if len != last_len { last_len = len; last_progress = std::time::Instant::now(); beat(); }
             if last_progress.elapsed().as_secs_f64() > 20.0 { let _ = child.kill(); let _ = child.wait(); break None; }
         };
         let txt = std::fs::read_to_string(&out_path).unwrap_or_default();
